@@ -63,7 +63,7 @@ func hC11Hostile() {
 	clMode := c11choose(aspect, 3, "respContentLength", 4) // absent, exact, symbolic digit, garbage
 	behaviour := 2
 	if c11vary(aspect, 4) {
-		behaviour = verifChoose("behaviour", 6)
+		behaviour = verifChoose("behaviour", 7)
 	}
 	passedThrough := false
 	p.tr.methods[pipePath].handler = http.HandlerFunc(func(w http.ResponseWriter, r *http.Request) {
@@ -105,6 +105,26 @@ func hC11Hostile() {
 				}
 			}
 			w.Write(append(end, nondetBytes("stray", verifChoose("strayLen", 2)+1)...))
+			return
+		}
+		if behaviour == 6 {
+			// a failing backend whose trailer metadata carries the name of a framing header
+			h.Set("Content-Type", p.backendContentType())
+			h.Del("Content-Length")
+			switch {
+			case p.backend.target == ProtocolGRPC || p.backend.target == ProtocolGRPCWeb:
+				h.Set("Grpc-Status", "5") // trailers-only
+				h.Set(http.TrailerPrefix+"Content-Length", "9")
+				w.WriteHeader(200)
+			case p.backend.target == ProtocolConnect && p.backend.unary:
+				h.Set("Content-Type", "application/json")
+				h.Set("Trailer-Content-Length", "9")
+				w.WriteHeader(404)
+				w.Write([]byte(`{"code":"not_found"}`))
+			default:
+				h.Set(http.TrailerPrefix+"Content-Length", "9")
+				w.WriteHeader(200)
+			}
 			return
 		}
 		if behaviour != 1 {
